@@ -345,13 +345,24 @@ def step (st : St) (line : String) : St × String :=
       if out = "panic" ∨ out = "hang" then (st, s!"ORA {name}: {out} in a derived structure codec") else
       if name = "enc" then
         let slots := " ".intercalate args
+        -- the round trip is demanded for the values `from_tlv` can produce: a flags value holding undeclared
+        -- bits (`from_bits_retain`) is written by the real encoder like any integer (`encodeReal`, compared
+        -- below) but is outside the claim (`encodeVal` refuses it; theorem `bitflags_undefined_rejected`)
+        let inClaim : Bool := match st.sty with
+          | some ty => (TlvSchema.encodeText ty args).isSome
+          | none => true
         let st' := match okPayload out with
-          | some h => { st with encoded := (h, slots) :: st.encoded }
+          | some h => if inClaim then { st with encoded := (h, slots) :: st.encoded } else st
           | none => st
-        match st.sty.bind (fun ty => TlvSchema.encodeText ty args) with
+        match st.sty.bind (fun ty => TlvSchema.encodeRealText ty args) with
         | some b => if "ok:" ++ hex b = out then (st', "ok") else
             (if (okPayload out).isNone then (st', s!"ORA enc: derived encoder rejected an in-range value ({out})") else (st', s!"DIS ok:{hex b}"))
         | none => (st', "BAD slots")
+      else if name = "wf" then
+        -- the harness' expectation (every shape except the two deliberately colliding ones is a well-formed
+        -- declaration) against `Ty.wfb` of the parsed declaration: a mismatch would silently disable the oracle
+        let m := if st.swf then "T" else "F"
+        if m = out then (st, "ok") else (st, s!"DIS {m}")
       else if name = "dec" then
         let h := args.getD 0 "-"
         let model : Bytes → St × String := fun b =>
@@ -378,9 +389,14 @@ def step (st : St) (line : String) : St × String :=
         -- unknown fields added: the tolerant derived decoder must return the same value
         let h0 := args.getD 0 "-"
         let h := args.getD 1 "-"
-        match st.encoded.find? (fun (x, _) => x = h0), unhex h with
-        | some (_, slots), some b =>
-          if st.swf ∧ out ≠ "ok:" ++ slots then
+        -- (an `enc` outside the round-trip claim — flags with undeclared bits — is not recorded: model only)
+        let want : Option String := (st.encoded.find? (fun (x, _) => x = h0)).map (·.2)
+        match unhex h with
+        | some b =>
+          let violated : Bool := match want with
+            | some slots => st.swf && out != "ok:" ++ slots
+            | none => false
+          if violated then
             (st, s!"ORA pdec: permuted fields / unknown extra fields change what a derived structure decodes to (got {out.take 120})")
           else
             match st.sty with
@@ -389,7 +405,7 @@ def step (st : St) (line : String) : St × String :=
               | some text => if out = "ok:" ++ text then (st, "ok") else (st, s!"DIS ok:{text.take 300}")
               | none => if out.startsWith "e:" then (st, "ok") else (st, "DIS e:*")
             | none => (st, "ok")
-        | _, _ => (st, "BAD pdec")
+        | none => (st, "BAD pdec")
       else if name = "reenc" then
         -- real `from_tlv` followed by real `to_tlv` (structures whose fields cannot be observed directly)
         let h := args.getD 0 "-"
